@@ -98,6 +98,19 @@ def value_of(shape, name=None, df=None):
         if name == "_q":
             import datetime
             return datetime.date(2020, 1, 2)
+        # scalars picked out of the library's own vectors through NumPy (`prices.filter(id=3).price.squeeze()`, an element,
+        # a reduction): each is a scalar and is broadcast like one — never a 0-dimensional column
+        import dataiter as di
+        if name == "a b":
+            return di.DataFrame(c=[7]).c.squeeze()
+        if name == "items":
+            return np.squeeze(di.Vector([7]))
+        if name == "filter":
+            return di.Vector([7, 8]).max()
+        if name == "nrow":
+            return di.DataFrameColumn([7.5])[0]
+        if name == "1a":
+            return di.Vector([3, 4]).sum()
         return 7
     if shape == "nd":
         # not one-dimensional.  For names "x" / "z" and a frame with rows: a two-dimensional *view of a
